@@ -1,10 +1,372 @@
-// Package c16 holds the runtime monitors for property C16 (see DESIGN.md section 4).
+// Package c16 monitors the debugger command interface: every text line, in
+// every debugger state, yields a JSON-encodable result or an error, never a
+// panic, never a debugger lock left held (DESIGN.md section 4, C16).
 package c16
 
-import "verif/harness/core"
+import (
+	"encoding/json"
+	"fmt"
+	"os"
+	"regexp"
+	"runtime"
+	"runtime/pprof"
+	"strings"
+	"sync"
+	"sync/atomic"
+
+	"verif/harness/core"
+)
 
 func init() { core.Register("C16", Run) }
 
+// the command vocabulary (+ an unknown command and the empty command, which
+// makes the first argument the command word)
+var commands = []string{"breakonstart", "break", "rmbreak", "disablebreak", "cont", "describe", "status",
+	"extract", "inject", "lockstate", "nosuchcmd", ""}
+
+// argument vocabulary; {T} = id of the debugged thread, {O} = an id no thread has
+var argPool = []string{
+	"{T}", "{O}", "0", "-1", "9223372036854775808", "1e99", "abc",
+	srcName, "nosrc", srcName + ":3", srcName + ":", ":3", srcName + ":x", "a:b:c",
+	"a", "m.k.x", "1+a", "1+", "", "\xff\xfe\x00{\x1b[",
+	"resume", "stepin", "stepover", "stepout", "StepOut", "true",
+}
+
+// further arguments of the random streams
+var extraArgs = []string{"b", "dest", "m", "e", "p", "nosuchvar", "m.k", "\"str\"", "[1,2]", "{\"a\":1}", "1/0", "noexist()", "a+b",
+	srcName + ":2", srcName + ":4", srcName + ":6", srcName + ":-1", srcName + ":99999999999999999999", "false", "Resume", "STEPIN",
+	"18446744073709551615", "1", "2", "00" + "1", "+1", "0x1", "1.0", " ", " x", "a;b", "a b"}
+
+func vecCount() int { return 1 + len(argPool) + len(argPool)*len(argPool) }
+
+// vector v of the exhaustive enumeration (length <= 2)
+func vecAt(v int) []string {
+	p := len(argPool)
+	switch {
+	case v == 0:
+		return nil
+	case v <= p:
+		return []string{argPool[v-1]}
+	}
+	v -= 1 + p
+	return []string{argPool[v/p], argPool[v%p]}
+}
+
+func mkLine(cmd string, args []string, sep string) string {
+	parts := append([]string{cmd}, args...)
+	return strings.Join(parts, sep)
+}
+
+type checker struct {
+	c        *core.Ctx
+	recorded sync.Map
+}
+
+func (k *checker) violation(key, what, stream string, idx int, detail interface{}) {
+	v, _ := k.recorded.LoadOrStore(key, new(int64))
+	if atomic.AddInt64(v.(*int64), 1) > 12 {
+		k.c.Event("violations_not_recorded:"+key, 1)
+		return
+	}
+	k.c.Violation(key, what, stream, idx, detail)
+}
+
+var numRe = regexp.MustCompile(`[0-9]+`)
+
+func jsonClass(err error) string {
+	s := err.Error()
+	if i := strings.LastIndex(s, "json: "); i >= 0 {
+		s = s[i+6:]
+	}
+	s = numRe.ReplaceAllString(s, "N")
+	if len(s) > 70 {
+		s = s[:70]
+	}
+	return s
+}
+
+func cmdWord(line string) string {
+	f := strings.Fields(line)
+	if len(f) == 0 {
+		return "<empty>"
+	}
+	for _, c := range commands {
+		if c == f[0] {
+			return c
+		}
+	}
+	return "<unknown>"
+}
+
+func trunc(s string, n int) string {
+	if len(s) > n {
+		return s[:n] + "..."
+	}
+	return s
+}
+
+// runCase prepares the state, feeds the lines and applies the oracles after
+// every line.
+func (k *checker) runCase(e *env, slot int, stream string, idx int, st *stateKind, lines []string) {
+	c := k.c
+	c.Begin(slot, stream, idx, "state: "+st.name+"\n"+strings.Join(lines, "\n"))
+	defer c.End(slot)
+	cs, why := prepare(e, st)
+	base := func() map[string]interface{} {
+		return map[string]interface{}{"state": st.name, "program": st.program, "breakpoint_line": st.breakAt, "breakonstart": st.onStart}
+	}
+	if why != "" {
+		cs.release(e)
+		c.Inconclusive("debugger state not reached: "+why, stream, idx, base())
+		return
+	}
+	c.Event("state."+st.name, 1)
+	var history []string
+	abandoned := false
+	for _, raw := range lines {
+		line := strings.ReplaceAll(strings.ReplaceAll(raw, "{T}", fmt.Sprint(cs.tid)), "{O}", fmt.Sprint(cs.tid+1000))
+		history = append(history, line)
+		word := cmdWord(line)
+		detail := base()
+		detail["commands"] = append([]string{}, history...)
+		detail["thread_id"] = cs.tid
+		var out interface{}
+		var err error
+		cr := callWatched(func() { out, err = cs.dbg.HandleInput(line) })
+		c.Event("cmd."+word, 1)
+		if cr.stuck {
+			detail["witness"] = cr.witness
+			k.violation("lock-held-before:"+word, fmt.Sprintf("HandleInput(%q) cannot acquire the debugger lock and no goroutine can release it", line), stream, idx, detail)
+			abandoned = true
+			break
+		}
+		if !cr.returned {
+			detail["dump"] = relevantDump(fullDump())
+			c.Inconclusive("HandleInput did not return, no stuck-lock witness", stream, idx, detail)
+			abandoned = true
+			break
+		}
+		key, msg, panicked := cr.panicKey, cr.panicMsg, cr.panicKey != ""
+		if panicked {
+			c.Event("outcome.panic", 1)
+			detail["panic"] = trunc(msg, 1800)
+			k.violation(key, fmt.Sprintf("HandleInput(%q) panicked in state %s", line, st.name), stream, idx, detail)
+		} else if err != nil {
+			c.Event("outcome.error", 1)
+		} else {
+			c.Event("outcome.result", 1)
+		}
+		// results may hold live references: marshal only while no debugged thread runs
+		q := cs.waitQuiescent(true)
+		c.Event("thread."+q, 1)
+		if q == qTimeout {
+			detail["dump"] = relevantDump(fullDump())
+			c.Inconclusive("debugged thread reached no quiescent state after the command", stream, idx, detail)
+			break
+		}
+		if !panicked && err == nil {
+			var jerr error
+			jk, jm, jp := core.Guard(func() { _, jerr = json.Marshal(out) })
+			if jp {
+				detail["panic"] = trunc(jm, 1800)
+				k.violation("json-"+jk, fmt.Sprintf("json.Marshal of the result of %q panicked", line), stream, idx, detail)
+			} else if jerr != nil {
+				detail["json_error"] = jerr.Error()
+				detail["result"] = trunc(fmt.Sprintf("%#v", out), 600)
+				k.violation("json:"+word+":"+jsonClass(jerr), fmt.Sprintf("the result of %q in state %s is not JSON-encodable", line, st.name), stream, idx, detail)
+			}
+		}
+		p, status, perr := probe(cs)
+		switch {
+		case p.panicKey != "":
+			detail["panic"] = trunc(p.panicMsg, 1800)
+			k.violation(p.panicKey, fmt.Sprintf("the follow-up status command after %q panicked", line), stream, idx, detail)
+		case p.stuck:
+			detail["witness"] = p.witness
+			k.violation("lock-held:"+word, fmt.Sprintf("after %q the follow-up command cannot acquire the debugger lock and no goroutine can release it", line), stream, idx, detail)
+		case !p.returned:
+			detail["dump"] = relevantDump(fullDump())
+			c.Inconclusive("follow-up status did not return, no stuck-lock witness", stream, idx, detail)
+		case perr != nil:
+			detail["error"] = perr.Error()
+			k.violation("followup-error:"+word, fmt.Sprintf("the follow-up command after %q returned an error", line), stream, idx, detail)
+		default:
+			c.Event("followup.status.returned", 1)
+			var jerr error
+			core.Guard(func() { _, jerr = json.Marshal(status) })
+			if jerr != nil {
+				detail["json_error"] = jerr.Error()
+				k.violation("json:status:"+jsonClass(jerr), fmt.Sprintf("the status after %q in state %s is not JSON-encodable", line, st.name), stream, idx, detail)
+			}
+		}
+		cs.tmu.Lock()
+		tp, tm := cs.tPanic, cs.tPanicMs
+		cs.tPanic = ""
+		cs.tmu.Unlock()
+		if tp != "" {
+			detail["panic"] = trunc(tm, 1800)
+			k.violation("thread-"+tp, fmt.Sprintf("the debugged thread panicked after %q", line), stream, idx, detail)
+		}
+		if !p.returned {
+			abandoned = true
+			break
+		}
+		cs.unpause()
+	}
+	if abandoned {
+		// a call into the debugger is still blocked: do not wait for anything
+		cs.abandon()
+		c.Event("case.abandoned", 1)
+		return
+	}
+	if q := cs.release(e); q != qFinished {
+		// a thread that stays parked although it is reported running ran into
+		// ecal's lost wake-up (candidate finding 23, property C15)
+		dump := fullDump()
+		gid := atomic.LoadUint64(&cs.gid)
+		cause := "unknown"
+		for _, b := range parseDump(dump) {
+			if b.id == gid {
+				cause = b.state
+				if b.state == "sync.Cond.Wait" && strings.Contains(b.text, dbgFrame) {
+					cause = "parked-at-debugger-wait-site"
+				}
+			}
+		}
+		c.Event("thread.not-released:"+cause, 1)
+		if cause != "parked-at-debugger-wait-site" {
+			d := base()
+			d["commands"] = history
+			d["dump"] = relevantDump(dump)
+			c.Inconclusive("the debugged thread did not end after StopThreads ("+cause+")", stream, idx, d)
+		}
+	} else {
+		c.Event("thread.released", 1)
+	}
+}
+
+func workers() int {
+	n := runtime.GOMAXPROCS(0)
+	if n > 4 {
+		n = 4
+	}
+	return n
+}
+
+// randLine draws one command line.
+func randLine(r *core.Rand, minArgs, maxArgs int) string {
+	cmd := commands[r.Intn(len(commands))]
+	if r.Chance(1, 3) {
+		// the commands that act on threads deserve more weight
+		cmd = []string{"cont", "describe", "extract", "inject", "status", "lockstate", "break"}[r.Intn(7)]
+	}
+	n := r.Range(minArgs, maxArgs)
+	args := make([]string, n)
+	for i := range args {
+		if r.Chance(1, 3) {
+			args[i] = extraArgs[r.Intn(len(extraArgs))]
+		} else {
+			args[i] = argPool[r.Intn(len(argPool))]
+		}
+	}
+	if n > 0 && r.Chance(1, 2) {
+		args[0] = "{T}"
+		if cmd == "cont" && n > 1 && r.Chance(2, 3) {
+			args[1] = []string{"resume", "stepin", "stepover", "stepout"}[r.Intn(4)]
+		}
+		if (cmd == "extract" || cmd == "inject") && n > 1 && r.Chance(2, 3) {
+			args[1] = []string{"a", "b", "m", "p", "dest"}[r.Intn(5)]
+		}
+	}
+	sep := " "
+	switch r.Intn(8) {
+	case 0:
+		sep = "\t"
+	case 1:
+		sep = "  "
+	}
+	line := mkLine(cmd, args, sep)
+	if r.Chance(1, 10) {
+		line = " " + line + " \r"
+	}
+	return line
+}
+
 // Run is the check.
 func Run(c *core.Ctx) {
+	c.Note("rule", fmt.Sprintf("states (%d): fresh; thread running in a heartbeat loop; suspended at top level (breakpoint, breakonstart, last line), inside 1..3 nested calls, on an error (list / map / nested containers with a function as error data); finished (with and without RecordThreadFinished, after a mutex block); after StopThreads. "+
+		"enum-<state>: every command of {%s, unknown, empty} x every argument vector of length <=2 over %d values (valid tid, other tid, 0, -1, 2^63, 1e99, abc, known/unknown source, src:3, src:, :3, src:x, a:b:c, identifier, dotted path, expression, failing expression, empty, garbage bytes, resume/stepin/stepover/stepout/StepOut/true), one fresh state per line; "+
+		"rand-vec: vectors of length 3..4 (also over %d further values: variables, JSON-ish expressions, odd numbers, unicode spaces), random separators; seq: random command sequences of length <=8 in one state. "+
+		"Oracles after every line: no panic out of HandleInput (core.Guard), json.Marshal of the result succeeds (taken while no debugged thread runs), a follow-up `status` and a write-lock command return - a probe that does not return is decided by the stuck-state predicate (probing goroutine in RWMutex acquisition inside an ecalDebugger method while every other goroutine inside the debugger is blocked), no panic on the debugged thread. "+
+		"non-trivial = distinct (state, command line) whose command word is in the vocabulary and which has at least one argument or whose state holds a thread",
+		len(states), strings.Join(commands[:10], ","), len(argPool), len(extraArgs)))
+	c.Note("exhaustive", "true")
+	if pf := os.Getenv("VH_PPROF"); pf != "" {
+		f, _ := os.Create(pf)
+		pprof.StartCPUProfile(f)
+		defer pprof.StopCPUProfile()
+	}
+	k := &checker{c: c}
+	envs := make([]*env, workers())
+	for i := range envs {
+		envs[i] = newEnv()
+	}
+	defer func() {
+		c.Event("goroutines.at-end-of-batch", int64(runtime.NumGoroutine()))
+		if n := atomic.LoadInt64(&stopThreadsPanics); n > 0 {
+			c.Event("cleanup.StopThreads-panicked(not a command, no verdict)", n)
+		}
+		for _, e := range envs {
+			e.close()
+		}
+	}()
+	nontriv := func(st *stateKind, line string) {
+		w := cmdWord(line)
+		if w != "<unknown>" && w != "<empty>" && (len(strings.Fields(line)) > 1 || st.mode != "fresh") {
+			c.Nontrivial(core.Hash64(st.name + "|" + line))
+		}
+	}
+	// exhaustive: state x command x vector (<=2)
+	nv := vecCount()
+	for si := range states {
+		st := &states[si]
+		stream := "enum-" + st.name
+		c.Parallel(len(envs), stream, len(commands)*nv, func(slot, idx int) {
+			line := mkLine(commands[idx/nv], vecAt(idx%nv), " ")
+			k.runCase(envs[slot], slot, stream, idx, st, []string{line})
+			nontriv(st, line)
+			if idx%1777 == 5 {
+				c.Sample(stream, map[string]interface{}{"state": st.name, "line": line})
+			}
+		})
+	}
+	// random longer vectors
+	c.Parallel(len(envs), "rand-vec", c.Pick(8000, 600000), func(slot, idx int) {
+		r := c.Rng("rand-vec", idx)
+		st := &states[r.Intn(len(states))]
+		line := randLine(r, 3, 4)
+		k.runCase(envs[slot], slot, "rand-vec", idx, st, []string{line})
+		nontriv(st, line)
+		if idx%2999 == 5 {
+			c.Sample("rand-vec", map[string]interface{}{"state": st.name, "line": line})
+		}
+	})
+	// random command sequences
+	c.Parallel(len(envs), "seq", c.Pick(4000, 300000), func(slot, idx int) {
+		r := c.Rng("seq", idx)
+		st := &states[r.Intn(len(states))]
+		n := r.Range(2, 8)
+		lines := make([]string, n)
+		for i := range lines {
+			lines[i] = randLine(r, 0, 4)
+		}
+		k.runCase(envs[slot], slot, "seq", idx, st, lines)
+		c.AddEvals(n - 1)
+		for _, l := range lines {
+			nontriv(st, l)
+		}
+		if idx%1499 == 5 {
+			c.Sample("seq", map[string]interface{}{"state": st.name, "lines": lines})
+		}
+	})
 }
